@@ -159,37 +159,31 @@ func (a *adapter) project(fl engine.Fields, from int) {
 	fl["reqs"] = reqs
 }
 
-// deliverBlock queues one BlocksMsg and waits until the receive loop has dealt with it.
+// deliverBlock queues one BlocksMsg and, right behind it, a marker BlocksMsg holding the genesis block (always
+// stale: the loop asks StableBlock() and moves on).  The receive loop handles blocks strictly in order, so once it
+// has asked StableBlock() for the marker it is done with the block - whatever it decided to do with it.
 func (a *adapter) deliverBlock(h int) string {
 	n := a.n
 	b := a.wd.blocks[h]
 	from := n.r.mark()
 	n.peer.push(p2p.BlocksMsg, enc(types.Blocks{node.Copy(b, nil)}))
-	path, at := "", 0
-	n.r.wait(fmt.Sprintf("the receive loop to classify block %d", h), func(evs []ev) bool {
-		for i := from; i < len(evs); i++ {
-			e := evs[i]
-			if e.caller != fromRcvLoop {
-				continue
-			}
-			switch {
-			case e.kind == "StableBlock" && e.height >= b.Height():
-				path = "stale"
-				return true
-			case e.kind == "HasBlock" && e.hash == b.Hash() && e.ok:
-				path = "stale"
-				return true
-			case e.kind == "HasBlock" && e.hash == b.ParentHash():
-				path, at = "cache", i
-				if e.ok {
-					path = "insert"
-				}
-				return true
-			}
-		}
-		return false
+	n.peer.push(p2p.BlocksMsg, enc(types.Blocks{node.Copy(a.wd.blocks[0], nil)}))
+	n.r.wait(fmt.Sprintf("the receive loop to finish block %d and the marker behind it", h), func(evs []ev) bool {
+		return count(evs, from, func(e ev) bool { return e.kind == "StableBlock" && e.caller == fromRcvLoop }) >= 2
 	})
-	if path == "cache" { // Add happens before the parent request goroutine is started
+	path, at := "stale", 0
+	n.r.mu.Lock()
+	for i := from; i < len(n.r.evs); i++ {
+		if e := n.r.evs[i]; e.caller == fromRcvLoop && e.kind == "HasBlock" && e.hash == b.ParentHash() {
+			path, at = "cache", i
+			if e.ok {
+				path = "insert"
+			}
+			break
+		}
+	}
+	n.r.mu.Unlock()
+	if path == "cache" { // the parent request is written by a goroutine started after BlockCache.Add
 		n.r.wait(fmt.Sprintf("the parent request for cached block %d", h), func(evs []ev) bool {
 			return count(evs, at, func(e ev) bool {
 				if e.kind != "write" || e.code != p2p.GetBlocksMsg {
@@ -203,24 +197,25 @@ func (a *adapter) deliverBlock(h int) string {
 	return path
 }
 
+// deliverConfirm queues one ConfirmMsg and a fence; what the handler decided is read off the events.
 func (a *adapter) deliverConfirm(h, d int) string {
 	n := a.n
 	from := n.r.mark()
 	cd := a.wd.confirm(h, d)
 	n.peer.push(p2p.ConfirmMsg, enc(cd))
-	path := ""
-	n.r.wait(fmt.Sprintf("handleConfirmMsg for block %d", h), func(evs []ev) bool {
-		for i := from; i < len(evs); i++ {
-			if e := evs[i]; e.kind == "HasBlock" && e.caller == fromConfirmMsg && e.hash == cd.Hash {
-				path = "cache"
-				if e.ok {
-					path = "insert"
-				}
-				return true
+	n.fence()
+	path := "none"
+	n.r.mu.Lock()
+	for i := from; i < len(n.r.evs); i++ {
+		if e := n.r.evs[i]; e.kind == "HasBlock" && e.caller == fromConfirmMsg && e.hash == cd.Hash {
+			path = "cache"
+			if e.ok {
+				path = "insert"
 			}
+			break
 		}
-		return false
-	})
+	}
+	n.r.mu.Unlock()
 	return path
 }
 
@@ -298,10 +293,35 @@ func (a *adapter) Apply(s engine.Step) (engine.Fields, error) {
 	default:
 		return nil, fmt.Errorf("unknown action %s", s.Act.Name)
 	}
-	n.waitSettled(s.Act.String())
-	n.waitStableCleared(n.bc.StableBlock().Height())
-	a.project(fl, from)
+	a.snapshot(fl, from, s.Act.String())
 	return fl, nil
+}
+
+// snapshot logs the node state at a quiescence point.  The manager's queue timer is autonomous: if it (or anything
+// else that calls into the chain / pool / peer) was active while the state was being read, the reading is repeated,
+// so that every logged state is a consistent one.
+func (a *adapter) snapshot(fl engine.Fields, from int, what string) {
+	n := a.n
+	deadline := time.Now().Add(waitLimit)
+	for {
+		n.waitSettled(what)
+		n.waitStableCleared(n.bc.StableBlock().Height())
+		m0 := n.r.mark()
+		tmp := engine.Fields{}
+		a.project(tmp, from)
+		n.r.mu.Lock()
+		quiet := len(n.r.evs) == m0 && settledIn(n.r.evs)
+		n.r.mu.Unlock()
+		if quiet {
+			for k, v := range tmp {
+				fl[k] = v
+			}
+			return
+		}
+		if time.Now().After(deadline) {
+			engine.Failf("sync harness: no quiet moment to read the node state within %v after %s", waitLimit, what)
+		}
+	}
 }
 
 func (a *adapter) Close() {
